@@ -491,6 +491,8 @@ CHECKS = {
             dict(name="inflight", run="TestC06InFlight", checks=dict(quick=3000, thorough=12000), shards=dict(quick=1, thorough=8)),
             # the remove function of ONE registration called from 2-4 goroutines at once and again afterwards, while calls are in flight
             dict(name="multiremove", run="TestC06MultiRemove", checks=dict(quick=3000, thorough=12000), shards=dict(quick=1, thorough=8)),
+            # container notifications (atomic or not: prefix + 1-5 members) against subscribers at / above / below the prefix on touched and untouched paths; match, server and real-cache layers
+            dict(name="atomic", run="TestC06Atomic", checks=dict(quick=3000, thorough=16000), shards=dict(quick=1, thorough=8)),
         ],
     ),
     "C17": dict(
